@@ -25,8 +25,8 @@ ASSUMPTIONS = [
     "outside this property's quantifier)",
 ]
 FLOORS = {"quick": {"evaluations": 900, "field_comparisons": 6000, "uihb_transitions": 100},
-          "thorough": {"evaluations": 40000, "field_comparisons": 400000,
-                       "uihb_transitions": 8000}}
+          "thorough": {"evaluations": 1000000, "field_comparisons": 3000000,
+                       "uihb_transitions": 50000}}
 
 NETNAMES = {"NETID_MAINNET": "mainnet", "NETID_TESTNET": "testnet", "NETID_REGTEST": "regtest"}
 
@@ -34,7 +34,7 @@ NETNAMES = {"NETID_MAINNET": "mainnet", "NETID_TESTNET": "testnet", "NETID_REGTE
 def shards(tier, seed):
     if tier == "quick":
         return [{"seed": seed * 1000 + i, "n": 22} for i in range(16)]
-    return [{"seed": seed * 1000 + i, "n": 650} for i in range(32)]
+    return [{"seed": seed * 1000 + i, "n": 8000} for i in range(32)]
 
 
 def gen_diff(rng):
